@@ -5,6 +5,7 @@ use crate::neutral::*;
 use etherparse::err::{self, Layer, LenError};
 use etherparse::*;
 
+pub mod builder;
 pub mod entry;
 pub mod exhaust;
 pub mod iplevel;
